@@ -1,9 +1,16 @@
 mod driver;
+mod engine;
 mod extract;
 mod imp;
+mod props;
 mod util;
 
 use std::env;
+use util::Obj;
+
+fn arg_after(args: &[String], flag: &str) -> Option<String> {
+    args.iter().position(|a| a == flag).and_then(|i| args.get(i + 1)).cloned()
+}
 
 fn main() {
     let args: Vec<String> = env::args().collect();
@@ -20,9 +27,69 @@ fn main() {
             let mut d = driver::Driver::spawn(&args[2]);
             let kind = &args[3];
             let src = util::hex(args[4].as_bytes());
-            let line = if kind == "RUN" { format!("RUN {src} {} {} 100000 - -", "", "") } else { format!("{kind} {src}") };
+            let line = if kind == "RUN" { format!("RUN h{src} h h 1000000 - -") } else { format!("{kind} h{src}") };
             println!("{}", d.ask(&line));
         }
-        _ => eprintln!("usage: apverif extract <dir> | …"),
+        Some("prop") => {
+            let start = std::time::Instant::now();
+            let ctx = props::Ctx {
+                prop: args[2].clone(),
+                tier: arg_after(&args, "--tier").unwrap_or("quick".into()),
+                seed: arg_after(&args, "--seed").and_then(|s| s.parse().ok()).unwrap_or(20260930),
+                driver: arg_after(&args, "--driver").expect("--driver"),
+                threads: arg_after(&args, "--threads").and_then(|s| s.parse().ok()).unwrap_or(16),
+            };
+            let out = arg_after(&args, "--out").expect("--out");
+            let replay_dir = arg_after(&args, "--replay-dir").unwrap_or("/verif/replay".into());
+            let Some(res) = props::run_prop(&ctx) else {
+                eprintln!("no correspondence run defined for {}", ctx.prop);
+                std::process::exit(2);
+            };
+            let st = &res.stats;
+            let mut violations = vec![];
+            // one replay per failure class (model disagreement / implementation-vs-oracle), at most 5 in all
+            for f in st.failures.iter().take(5) {
+                let path = engine::write_replay(&replay_dir, &ctx.prop, f, ctx.seed);
+                violations.push(path);
+            }
+            let mut o = Obj::new();
+            o.n("evaluations", st.evaluations)
+                .n("distinct_nontrivial", st.nontrivial.min(st.distinct.len() as u64))
+                .n("distinct", st.distinct.len() as u64)
+                .s("rule", &res.rule)
+                .strs("samples", &st.samples)
+                .n("traces_validated_against_impl", st.traces_validated)
+                .n("model_disagreements", st.model_disagreements)
+                .n("impl_vs_oracle_failures", st.impl_failures)
+                .n("fuel_exhausted_skipped", st.fuel_skipped)
+                .b("exhaustive", res.exhaustive)
+                .map("input_distribution", &st.dist)
+                .map("known_finding_hits", &st.known_hits)
+                .strs("notes", &res.notes)
+                .strs("violation_replays", &violations)
+                .f("harness_wall_s", start.elapsed().as_secs_f64());
+            std::fs::write(&out, o.build()).unwrap();
+            for (i, f) in st.failures.iter().enumerate() {
+                eprintln!("--- failure {} ({}) {}\n    source: {:?}\n    impl:  {}\n    model: {}", i, f.what, f.detail, f.case.src.chars().take(200).collect::<String>(), f.impl_rec.chars().take(300).collect::<String>(), f.model_rec.chars().take(300).collect::<String>());
+            }
+            for v in &violations {
+                println!("VIOLATION property={} replay={}", ctx.prop, v);
+            }
+            println!(
+                "{}: {} evaluations, {} distinct, {} non-trivial, {} model disagreements, {} impl-vs-oracle failures, {} fuel-skipped, {:.1}s",
+                ctx.prop,
+                st.evaluations,
+                st.distinct.len(),
+                st.nontrivial,
+                st.model_disagreements,
+                st.impl_failures,
+                st.fuel_skipped,
+                start.elapsed().as_secs_f64()
+            );
+            if st.model_disagreements + st.impl_failures > 0 {
+                std::process::exit(1);
+            }
+        }
+        _ => eprintln!("usage: apverif extract <dir> | prop <Cxx> --tier t --seed n --driver path --out file"),
     }
 }
